@@ -307,6 +307,21 @@ theorem step_inv {s : Script} (hf : Fused s) {c : Cfg} (h : Inv s c) (hW : c.R <
     split
     · exact hret _
     · split <;> exact hret _
+  | unw b n =>
+    have hme : (c.th t).pc.ticket = some (b, n) := by simp [hx, Pc.ticket]
+    have hcs : (c.th t).pc.inCS = true := by simp [hx, Pc.inCS]
+    have htk := h.tk t b n hme
+    have hbY := h.csY t b n hcs hme
+    have hdisj : ∀ u b' n', u ≠ t → (c.th u).pc.ticket = some (b', n') → b + n ≤ b' ∨ b' + n' ≤ b :=
+      fun u b' n' hu hb' => h.disj t u b n b' n' (Ne.symm hu) hme hb'
+    have hpcs := h.pcs t b n hcs hme
+    simp [hx, Pc.acc] at hpcs
+    simp only
+    refine inv_update h t _ c.R c.Y true c.P h.yr (Nat.le_refl _) ⟨htodo0, by simp, ?_, by simp, by simp, by simp⟩ (oth_same h t) (by simp [Pc.inCS])
+    intro b0 n0 hb0
+    simp [Pc.ticket] at hb0
+    obtain ⟨rfl, rfl⟩ := hb0
+    exact ⟨htk.1, htk.2.1, htk.2.2, fun _ => hbY, by simp [Pc.acc], by simp [Pc.acc], fun _ hnn => by simpa [Pc.acc] using hpcs hnn, hdisj⟩
   | dead b n => simpa using h
 
 end Orx.IW
